@@ -43,6 +43,9 @@ type Scenario struct {
 	// handler is busy); SlowMs lets the handler take that long (virtual time) per ordinary message.
 	Queue  int `json:"queue"`
 	SlowMs int `json:"slowMs,omitempty"`
+	// DropCode > 0: the connection has a request monitor (WithRequestMonitor) that asks to drop every
+	// message with this code; all the others are delivered, whatever the segmentation
+	DropCode int `json:"dropCode,omitempty"`
 }
 
 func isSignal(code int) bool { return code >= 225 && code <= 229 }
@@ -105,7 +108,7 @@ func Exec(t *testing.T, sc Scenario, r *evid.Run) *evid.Failure {
 			if f.Code == 226 {
 				wantPings = append(wantPings, f.Token)
 			}
-		} else {
+		} else if sc.DropCode == 0 || f.Code != sc.DropCode {
 			want.msgs = append(want.msgs, f)
 		}
 	}
@@ -168,7 +171,11 @@ func Exec(t *testing.T, sc Scenario, r *evid.Run) *evid.Failure {
 				time.Sleep(time.Duration(sc.SlowMs) * time.Millisecond)
 			}
 		}
+		monitor := tcpClient.RequestMonitorFunc(func(_ *tcpClient.Conn, rq *pool.Message) (bool, error) {
+			return sc.DropCode > 0 && int(rq.Code()) == sc.DropCode, nil
+		})
 		cc, err := endpoints.TCP(link.A, []tcp.Option{
+			endpoints.TCPCfg(func(cfg *tcpClient.Config) { cfg.RequestMonitor = monitor }), // what WithRequestMonitor sets on a server's connections
 			options.WithReceivedMessageQueueSize(sc.Queue),
 			options.WithHandlerFunc(tcpClient.HandlerFunc(handler)),
 			options.WithMessagePool(pool.New(8, 2048)),
@@ -329,6 +336,16 @@ func gen(t *rapid.T) Scenario {
 	if len(sc.Frames) == 0 {
 		sc.Frames = []refcodec.Msg{{Code: 1, Token: []byte{1}}}
 	}
+	if rapid.IntRange(0, 3).Draw(t, "monitor") == 0 {
+		// drop the code of one of the ordinary frames (or one that does not occur)
+		sc.DropCode = 4
+		for _, f := range sc.Frames {
+			if !isSignal(f.Code) && f.Code > 0 && rapid.Bool().Draw(t, "dropthis") {
+				sc.DropCode = f.Code
+				break
+			}
+		}
+	}
 	if rapid.IntRange(0, 3).Draw(t, "oversize") == 0 {
 		sc.OversizeAt = rapid.IntRange(0, len(sc.Frames)-1).Draw(t, "oversizeAt")
 		m := uint64(sc.MaxMsg)
@@ -448,12 +465,15 @@ func TestCheck(t *testing.T) {
 			if sc.OversizeAt >= 0 {
 				cls = append(cls, "framing/oversize")
 			}
+			if sc.DropCode > 0 {
+				cls = append(cls, "framing/request-monitor-drops-a-code")
+			}
 			r.Case("framing", key, func() any { return summary(sc) }, cls...)
 		}
 		return f
 	})
 	r.Main(evid.Meta{
-		Rule:        "a stream connection (tcp.Client on an in-memory stream, connection cache size in {1,2,3,7,64,2048}, received-message queue 0/1/2/16, handler instantaneous or taking 1 virtual ms) fed by the scripted peer with 1-12 frames from the C01 generator (all Len classes, TKL 0-8, signalling and ordinary codes, payloads beyond 65805 occasionally), cut by a generated segmentation (single bytes, cuts inside headers, several frames per segment), each segment followed by quiescence; optionally one frame is replaced by a header declaring more than the maximum message size (max, max+1, 2*max, next to 2^32) with no body byte supplied. Oracle: handler log and signal log equal the sent sequence whatever the segmentation, every Ping answered by a Pong with its token, oversize: nothing from that frame on is delivered and the connection is closed with an error reported. Non-trivial = >= 2 frames and a cut inside a header or >= 2 frames in one segment (measured: class framing/nontrivial-segmentation); distinct by scenario",
+		Rule:        "a stream connection (tcp.Client on an in-memory stream, connection cache size in {1,2,3,7,64,2048}, received-message queue 0/1/2/16, handler instantaneous or taking 1 virtual ms, optionally a request monitor that asks to drop every message of one code) fed by the scripted peer with 1-12 frames from the C01 generator (all Len classes, TKL 0-8, signalling and ordinary codes, payloads beyond 65805 occasionally), cut by a generated segmentation (single bytes, cuts inside headers, several frames per segment), each segment followed by quiescence; optionally one frame is replaced by a header declaring more than the maximum message size (max, max+1, 2*max, next to 2^32) with no body byte supplied. Oracle: handler log and signal log equal the sent sequence whatever the segmentation, every Ping answered by a Pong with its token, oversize: nothing from that frame on is delivered and the connection is closed with an error reported. Non-trivial = >= 2 frames and a cut inside a header or >= 2 frames in one segment (measured: class framing/nontrivial-segmentation); distinct by scenario",
 		Assumptions: []string{"connection cache size 0 is not a usable configuration and is not generated", "a frame's header is Len, extended length, code and token: all of them are supplied before the close is required"},
 		Floor:       300,
 	}, eng, cutsEngine(t))
